@@ -524,3 +524,6 @@ NONTRIVIAL = "one obligation per exit path, per pipeline stage/argument, per scr
 EXPLANATION += (
     ' R8: what each route hands to run_source is the text it read, through byte-preserving conversions only. R9: shout prints its own parameter with Display and one line break, nothing else. R10: in the derived clap definition of the top-level Cli every value parser is the one inferred from the field type (the empty program is a program).'
 )
+EXPLANATION += (
+    ' Round 6: R2 also requires the stdin reading loop to end only when a read returns 0.'
+)
